@@ -217,8 +217,14 @@ fn byte_level(g: &mut Gen<'_>, seed: &[u8], stride: usize, offset: usize, hostil
                 g.emit("byte-replace", &v);
             }
         }
-        g.emit("truncate", &seed[..pos]);
         pos += stride;
+    }
+    // truncation costs one input per position: every position in both tiers
+    for pos in 0..seed.len() {
+        if g.stopped {
+            break;
+        }
+        g.emit("truncate", &seed[..pos]);
     }
 }
 
@@ -258,6 +264,11 @@ fn char_level(g: &mut Gen<'_>, seed: &[u8], stride: usize, offset: usize, hostil
                 v.push_str(&s[end..]);
                 g.emit("byte-replace", v.as_bytes());
             }
+        }
+    }
+    for (pos, _) in s.char_indices() {
+        if g.stopped {
+            break;
         }
         g.emit("truncate", s[..pos].as_bytes());
     }
